@@ -131,13 +131,16 @@ def r11c(ck, fb):
     u = ck.body(NA + 'update_instance', 'R11c')
     if u:
         ins = [s for s in u.calls(r'HashSet::<T, S, A>::insert$')]
-        cis = util.mut_calls_on_field(u, 'client_instance_set', r'HashMap::<K, V, S, A>::(get_mut|insert)$')
-        ck.require(len(ins) >= 2 and len(cis) >= 2, 'R11c', 'update_instance:records-owner', u.where(), 'the owner->instances map is not maintained on registration')
+        cis = util.mut_calls_on_field(u, 'client_instance_set', r'HashMap::<K, V, S, A>::(get_mut|insert|entry)$')
+        ck.require(len(ins) >= 1 and len(cis) >= 1, 'R11c', 'update_instance:records-owner', u.where(), 'the owner->instances map is not maintained on registration')
         for s in cis:
-            if s.callee.endswith('insert'):
+            if s.callee.endswith('insert') or s.callee.endswith('entry'):
                 atoms = cfg.guard_atoms(u, s.bb)
                 ok = any(a[0] == 'call' and (a[1] or '').endswith('is_empty') and a[2] is False for a in atoms)
                 ck.require(ok, 'R11c', 'update_instance:owner-non-empty', s.where(), 'instances without a client id are recorded in the reverse map')
+        # the recorded key is this instance's key under this instance's client id
+        tk = Taint(u, call_src=lambda t: (t.get('f') or {}).get('d', '').endswith('InstanceKey::new_by_service_key'))
+        ck.require(any(tk.op_tainted(s.args[1]) for s in ins), 'R11c', 'update_instance:records-this-key', u.where(), 'the key recorded for the owner is not the instance key')
         rm = [s for s in u.calls(r'HashSet::<T, S, A>::remove$')]
         ok = False
         for s in rm:
